@@ -141,9 +141,9 @@ def run_driver(impl_results, order, args=None, timeout=600):
 
 def triples(case, I, MS):
     """Align implementation lines with model/spec lines step by step."""
-    Il = [x[2:] for x in I if x.startswith('I ')]
-    M = [x[2:] for x in MS if x.startswith('M ')]
-    S = [x[2:] for x in MS if x.startswith('S ')]
+    Il = [x[2:] for x in I if x.startswith('I ') or x == 'I']
+    M = [x[2:] for x in MS if x.startswith('M ') or x == 'M']
+    S = [x[2:] for x in MS if x.startswith('S ') or x == 'S']
     return Il, M, S
 
 
